@@ -272,4 +272,18 @@ func init() {
 		}
 		return p
 	}
+
+	planTable["C38"] = func(q bool) *Plan {
+		p := &Plan{Level: "model_checking", Engine: "E-sched",
+			Text:      "Real DB with 2 compactors, a 16 KiB memtable, one memtable slot and an L0 stall limit of 2 (so writers stall on the memtable queue and on L0, and only badger's own compactors can release them): 8 three-thread scenarios (commits x commits x Close; WriteBatch.Flush x iteration with ValueCopy x RunValueLogGC; commits x DropAll; commits x DropPrefix x reader; Flatten x commits; Subscribe+cancel x commits x Close; two Close calls; Sync x commits) are run under every interleaving of their API calls and the internal write/flush/compaction points up to the preemption bound; every call must return within 120 s of VIRTUAL time (2400 compactor ticks), otherwise the goroutine dump is the counterexample; a panic or fatal exit is a violation.",
+			Note:      "Liveness is 'within the virtual horizon'; a schedule that only fails to finish in real time is inconclusive, not a violation.",
+			Technique: "stateless model checking with a virtual-time horizon (controlled scheduler, preemption-bounded DFS)",
+			Rule:      "8 scenarios x schedules up to the bound; outcome = returned / deadlock"}
+		if q {
+			p.Stages = []Stage{sched("c38", 0, 8, 40, prm("cases", 8)), sched("c38", 1, 8, 45, prm("cases", 8))}
+		} else {
+			p.Stages = []Stage{sched("c38", 1, 8, 600, prm("cases", 8)), sched("c38", 2, 8, 1800, prm("cases", 8))}
+		}
+		return p
+	}
 }
